@@ -337,6 +337,9 @@ def parse_dump(text):
         elif k == "TOKENS":
             res["tokens"] = ln[7:]
             i += 1
+        elif k == "GCODE":
+            res.setdefault("gcode", []).append(ln)
+            i += 1
         elif k == "PANIC":
             res["panic"] = p[1]
             i += 1
